@@ -2401,7 +2401,9 @@ func (e *RaceEngine) inactiveOnly(a RAccess) bool {
 	return cnt > 0
 }
 
-func (e *RaceEngine) inactiveAt(at ssa.Instruction) bool {
+func (e *RaceEngine) inactiveAt(at ssa.Instruction) bool { return e.inactiveAtD(at, 0) }
+
+func (e *RaceEngine) inactiveAtD(at ssa.Instruction, depth int) bool {
 	b := at.Block()
 	for d := b.Idom(); d != nil; d = d.Idom() {
 		iff, ok := d.Instrs[len(d.Instrs)-1].(*ssa.If)
@@ -2415,6 +2417,31 @@ func (e *RaceEngine) inactiveAt(at ssa.Instruction) bool {
 		bo, ok := iff.Cond.(*ssa.BinOp)
 		if !ok {
 			continue
+		}
+		// `if err := helper(...); err != nil { return err }` where the helper returns nil only
+		// after having found the state Inactive itself
+		if kc, isC := bo.Y.(*ssa.Const); isC && kc.Value == nil && depth < 2 && ((bo.Op == token.NEQ && edge == 1) || (bo.Op == token.EQL && edge == 0)) {
+			if ec := errCall(bo.X); ec != nil {
+				if callee := ec.Call.StaticCallee(); callee != nil && isModuleFn(callee) {
+					n, all := 0, true
+					ri := callee.Signature.Results().Len() - 1
+					for _, cb := range callee.Blocks {
+						ret, isRet := cb.Instrs[len(cb.Instrs)-1].(*ssa.Return)
+						if !isRet || cb == callee.Recover || ri < 0 {
+							continue
+						}
+						if rc, isNil := returnedValue(ret, ri).(*ssa.Const); isNil && rc.Value == nil {
+							n++
+							if !e.inactiveAtD(ret, depth+1) {
+								all = false
+							}
+						}
+					}
+					if n > 0 && all {
+						return true
+					}
+				}
+			}
 		}
 		_, f, _, okf := FieldOf(bo.X)
 		k, isC := constInt(bo.Y)
